@@ -48,8 +48,10 @@ func runC17(c *Ctx) {
 			if m.named == ref.named {
 				continue
 			}
-			// separately defined: must be structurally identical including tags and id
-			if !types.Identical(m.named.Underlying(), ref.named.Underlying()) || !sameTags(m.named, ref.named) {
+			// separately defined
+			if types.Identical(m.named.Underlying(), ref.named.Underlying()) && sameTags(m.named, ref.named) && m.id == ref.id {
+				probs = append(probs, fmt.Sprintf("%s.%s and %s.%s are the same message (same id, fields and tags) but distinct Go types: a value decoded by one dialect does not match a type switch on the other's type (an included message must be an alias of the including definition)", m.defPkg, n, ref.defPkg, n))
+			} else if !types.Identical(m.named.Underlying(), ref.named.Underlying()) || !sameTags(m.named, ref.named) {
 				probs = append(probs, fmt.Sprintf("%s.%s and %s.%s are different Go types with different field lists", m.defPkg, n, ref.defPkg, n))
 			} else if m.id != ref.id {
 				probs = append(probs, fmt.Sprintf("%s.%s has id %d but %s.%s has id %d", m.defPkg, n, m.id, ref.defPkg, n, ref.id))
@@ -198,6 +200,7 @@ func runC17(c *Ctx) {
 	}
 
 	ruleSizeArithmetic(c, "R17.7")
+	ruleCRCExtraPreimage(c, "R17.8")
 }
 
 func sameTags(a, b *types.Named) bool {
